@@ -232,6 +232,17 @@ class ListTransformer(converter.Base):
     node.body = self._visit_and_process_block(node.body)
     return node
 
+  def visit_Try(self, node):
+    node.body = self._visit_and_process_block(node.body)
+    node.orelse = self._visit_and_process_block(node.orelse)
+    node.finalbody = self._visit_and_process_block(node.finalbody)
+    node.handlers = self.visit_block(node.handlers)
+    return node
+
+  def visit_ExceptHandler(self, node):
+    node.body = self._visit_and_process_block(node.body)
+    return node
+
 
 def transform(node, ctx):
   node = qual_names.resolve(node)
